@@ -138,6 +138,20 @@ func (e *EndpointElement) endpoint(a *sysl.Application) *sysl.Endpoint {
 	panic(fmt.Sprintf("endpoint %#v not found in app %#v", e.endpointName, e.appName))
 }
 
+// check reports a target that the model does not define as an error, so that a call to an
+// undefined application or endpoint ends diagram generation cleanly instead of panicking in
+// application()/endpoint().
+func (e *EndpointElement) check(m *sysl.Module) error {
+	app, ok := m.Apps[e.appName]
+	if !ok {
+		return fmt.Errorf("app %#v not found", e.appName)
+	}
+	if _, ok := app.Endpoints[e.endpointName]; !ok {
+		return fmt.Errorf("endpoint %#v not found in app %#v", e.endpointName, e.appName)
+	}
+	return nil
+}
+
 func (e *EndpointElement) label(
 	l EndpointLabeler,
 	m *sysl.Module,
@@ -350,6 +364,9 @@ func (v *SequenceDiagramVisitor) visitEndpointCollection(e *EndpointCollectionEl
 }
 
 func (v *SequenceDiagramVisitor) visitEndpoint(e *EndpointElement) error {
+	if err := e.check(v.m); err != nil {
+		return err
+	}
 	sender := e.sender(v)
 	agent := e.agent(v)
 	app := e.application(v.m)
